@@ -80,6 +80,13 @@ template <typename ITV> static void dump_rep(std::ostream& o, const Box<ITV>& x)
 template <typename T> static void force_closure(BD_Shape<T>& x) { x.shortest_path_closure_assign(); }
 template <typename T> static void force_closure(Octagonal_Shape<T>& x) { x.strong_closure_assign(); }
 template <typename ITV> static void force_closure(Box<ITV>& x) { (void) x.is_empty(); }
+// propagate_constraint(s) exists for boxes only
+template <typename T> static void do_propagate(BD_Shape<T>&, const Constraint_System&) { throw std::runtime_error("case: propagate on a BD shape"); }
+template <typename T> static void do_propagate(Octagonal_Shape<T>&, const Constraint_System&) { throw std::runtime_error("case: propagate on an octagon"); }
+template <typename ITV> static void do_propagate(Box<ITV>& x, const Constraint_System& cs) {
+  Constraint_System::const_iterator i = cs.begin(); unsigned k = 0; for (Constraint_System::const_iterator j = cs.begin(); j != cs.end(); ++j) ++k;
+  if (k == 1) x.propagate_constraint(*i); else x.propagate_constraints(cs);
+}
 template <typename T> static void force_reduction(BD_Shape<T>& x) { x.shortest_path_reduction_assign(); }
 template <typename T> static void force_reduction(Octagonal_Shape<T>& x) { x.strong_reduction_assign(); }
 template <typename ITV> static void force_reduction(Box<ITV>& x) { (void) x.is_empty(); }
@@ -196,6 +203,7 @@ template <typename D> struct DomObj : Obj {
     else if (op == "refine_with_constraint") x.refine_with_constraint(read_con(tk, dim));
     else if (op == "add_constraints") x.add_constraints(read_cons(tk, dim));
     else if (op == "refine_with_constraints") x.refine_with_constraints(read_cons(tk, dim));
+    else if (op == "propagate_constraints") do_propagate(x, read_cons(tk, dim));
     else if (op == "add_recycled_constraints") { Constraint_System cs = read_cons(tk, dim); x.add_recycled_constraints(cs); }
     else if (op == "add_congruence") x.add_congruence(read_cg(tk, dim));
     else if (op == "refine_with_congruence") x.refine_with_congruence(read_cg(tk, dim));
@@ -314,6 +322,12 @@ template <typename D> static Obj* new_dom(const char* kind, unsigned dim, const 
   if (how == "cons") { Constraint_System cs = read_cons(tk, dim); return new DomObj<D>(D(cs), kind); }
   if (how == "cgs") { Congruence_System cs = read_cgs(tk, dim); return new DomObj<D>(D(cs), kind); }
   if (how == "gens") { Generator_System gs = read_gens(tk, dim); return new DomObj<D>(D(gs), kind); }
+  if (how == "twin") {  // rebuilt from the constraints() of another object of the same kind (read from a copy)
+    const DomObj<D>* s = dynamic_cast<const DomObj<D>*>(get(tk.nextl()));
+    if (!s) throw std::runtime_error("case: twin of a different kind");
+    D c(s->x); Constraint_System cs = c.constraints(); D t(c.space_dimension(), UNIVERSE); t.add_constraints(cs);
+    return new DomObj<D>(t, kind);
+  }
   if (how == "from") { const Obj* s = get(tk.nextl()); Complexity_Class cx = read_cx(tk); D* d = try_from<D>(s, cx); Obj* o = new DomObj<D>(*d, kind); delete d; return o; }
   throw std::runtime_error("case: bad new " + how);
 }
